@@ -206,7 +206,8 @@ CLAIMS = {
         "text": ("Theorems: without a streamed LIMIT (no limit, or buffered query — D13 fixed) the member loop is exactly the left fold of "
                  "check_file over the member table, so each member is examined exactly once in table order; under a streamed LIMIT it stops "
                  "exactly when the limit is reached; member columns name/path/size/is_dir/mode have their documented values and columns "
-                 "unavailable for members are empty. The zip reader is external (member tables are snapshot input read with Python's "
+                 "unavailable for members are empty; the member loop is part of reporting an entry and depends on the depth window only through the "
+                 "mindepth gate, never on maxdepth (members_independent_of_maxdepth, archive_report). The zip reader is external (member tables are snapshot input read with Python's "
                  "zipfile). 'Ordinary rows unchanged by `archives`', ORDER BY/LIMIT uniformity, wrong/upper-case extensions and corrupt "
                  "archives (truncations, byte flips: no abort, no lost row) are decided by correspondence and oracles."),
         "ref": "DESIGN.md §4 C19",
